@@ -306,6 +306,18 @@ def rw_after_throw(body, throwers, retexpr, cnt):
                                    re.fullmatch(r'(?:const\s+)?[\w\s\*]+\s+\w+\s*=\s*', pre)):
                 if re.match(r'else\b', pre):
                     raise ExtractionError('may-throw call %s directly under else without braces' % name)
+                ma = re.fullmatch(r'([\w\.\->\[\]\(\)\*]+)\s*=\s*', pre)
+                if ma:
+                    # `lhs = f(..);` : in C++ the assignment does not happen when f throws
+                    lhs = ma.group(1)
+                    call = body[m.start():pc + 1]
+                    st_start = body.rindex(pre, 0, m.start())
+                    new = ('{ __typeof__(%s) verif_tmp = %s; if (verif_thrown) return %s; %s = verif_tmp; }'
+                           % (lhs, call, retexpr, lhs))
+                    body = body[:st_start] + new + body[j + 1:]
+                    cnt.hit('R8_assign_from_thrower')
+                    pos = st_start + len(new)
+                    continue
                 ins = ' if (verif_thrown) return %s;' % retexpr
                 body = body[:j + 1] + ins + body[j + 1:]
                 cnt.hit('R8_after_call')
@@ -320,6 +332,39 @@ def rw_after_throw(body, throwers, retexpr, cnt):
                     pos = pc + 1
                 else:
                     raise ExtractionError('may-throw call %s in unsupported context: %r' % (name, ctx[:120]))
+    return body
+
+
+def ref_positions(params):
+    params = params.strip()
+    if params in ('', 'void'):
+        return []
+    return [i for i, p in enumerate(split_top(params)) if '&' in re.sub(r'\s*=\s*[^=]+$', '', p)]
+
+
+def rw_ref_args(body, sigs, cnt):
+    """R4 at call sites: an argument bound to a reference parameter of an extracted callee becomes &(arg)"""
+    for cname, refs in sigs.items():
+        if not refs:
+            continue
+        pat = re.compile(r'(?<![\w])%s\s*\(' % re.escape(cname))
+        pos = 0
+        while True:
+            m = pat.search(body, pos)
+            if not m:
+                break
+            k = m.end() - 1
+            pc = match_close(body, k)
+            args = split_top(body[k + 1:pc])
+            for i in refs:
+                if i < len(args):
+                    a = args[i]
+                    lead = a[:len(a) - len(a.lstrip())]
+                    args[i] = lead + '&(' + a.strip() + ')'
+                    cnt.hit('R4_ref_arg')
+            new = ','.join(args)
+            body = body[:k + 1] + new + body[pc:]
+            pos = k + 1 + len(new)
     return body
 
 
@@ -505,7 +550,7 @@ def gen_struct(relfile, cls, opts, cnt):
         s = re.sub(r'\b(public|private|protected)\s*:', '', s).strip()
         if not s or '(' in s or s.startswith(('friend', 'typedef', 'enum', 'class', 'struct', 'using', 'static')):
             continue
-        m = re.match(r'^(?:mutable\s+)?(.*?)(\bf[A-Z]\w*)\s*((?:\[[^\]]*\])*)$', s)
+        m = re.match(r'^(?:mutable\s+)?(.*?)(\bf[A-Za-z]\w*)\s*((?:\[[^\]]*\])*)$', s)
         if not m:
             continue
         ty, name, arr = m.group(1).strip(), m.group(2), m.group(3)
@@ -544,6 +589,7 @@ def gen_struct(relfile, cls, opts, cnt):
         lines.append('  %s %s%s;' % (cty, name, arr_c))
         names.append(name)
     lines.append('};')
+    lines.append('enum { ' + ', '.join('OFS_%s_%s = offsetof(struct %s, %s)' % (sname, n, sname, n) for n in names) + ' };')
     selfn = opts.get('self', 'SELF')
     if selfn:
         lines.append('struct %s %s;' % (sname, selfn))
@@ -585,6 +631,8 @@ def gen_table(relfile, name, cname, cnt, static=True):
 
 
 def gen_enum(relfile, enum_name, prefix, cnt, scope=None):
+    if prefix == '-':
+        prefix = ''
     src = read_src(relfile)
     if scope:
         src_s = class_body(src, scope)
@@ -653,6 +701,8 @@ def parse_extract_block(text):
             spec['inclass'] = True
         elif s == 'static':
             spec['static'] = True
+        elif s == 'declonly':
+            spec['decl_only'] = True
         elif s == 'unannotated-loops-ok':
             spec['unannotated_ok'] = True
         elif s.startswith('ret '):
@@ -695,6 +745,20 @@ def do_extract(spec, cnt, exc_types, info):
     retexpr = spec['ret']
     if retexpr is None:
         retexpr = '' if ret.strip() == 'void' else '0'
+    info.setdefault('_sigs', {})[cname] = ref_positions(rw_quals(params, dummy))
+    if spec['decl_only']:
+        # contract-only callee: the signature comes from the real definition, the body is not used
+        out = ['/* ---- contract-only (body not verified in this unit): %s  (%s:%d) ---- */' % (spec['qual'], relfile, base_line)]
+        out += spec['pre']
+        out.append('%s %s(%s)' % (ret, cname, cparams.replace('&', '*')))
+        out.append('#line 1 "contract:%s"' % cname)
+        out += spec['contract']
+        out.append(';')
+        out.append('#line 1 "unit-after-%s"' % cname)
+        info['functions_contract_only'] = info.get('functions_contract_only', []) + [
+            {'qualified': spec['qual'], 'c_name': cname, 'file': relfile, 'line': base_line}]
+        cnt.hit('contract_only_decl')
+        return '\n'.join(out) + '\n'
     # --- body rewrites (order matters)
     body = rw_throws(body, cnt, exc_types)
     body = rw_casts(body, cnt)
@@ -706,6 +770,7 @@ def do_extract(spec, cnt, exc_types, info):
         cnt.hit('sub_rule', n)
     body = rw_quals(body, cnt)
     body = rw_calls(body, spec['calls'], cnt)
+    body = rw_ref_args(body, info.get('_sigs', {}), cnt)
     body = rw_after_throw(body, spec['throws'], retexpr, cnt)
     body, nloops, annotated = splice_loops(body, spec['loops'], base_line, relfile, cname, cnt)
     check_leftovers(body, cname)
@@ -727,6 +792,7 @@ def do_extract(spec, cnt, exc_types, info):
     out.append('#line 1 "unit-after-%s"' % cname)
     for r in refs:
         out.append('#undef %s' % r)
+    info.setdefault('_bodies', []).append(body)
     info['functions'].append({'qualified': spec['qual'], 'c_name': cname, 'file': relfile, 'line': base_line,
                               'loops': nloops, 'loops_annotated': annotated,
                               'body_sha1': hashlib.sha1(body.encode()).hexdigest()[:12],
@@ -769,10 +835,17 @@ def process(template_path):
         chunks.append(('extract', m.group(1)))
         pos = m.end()
     chunks.append(('text', text[pos:]))
-    for kind, c in chunks:
+    # pass 1: extract blocks (independent of the surrounding text)
+    extracted = {}
+    for ci, (kind, c) in enumerate(chunks):
         if kind == 'extract':
             spec = parse_extract_block(c)
-            out.append(do_extract(spec, cnt, exc_types, info))
+            extracted[ci] = do_extract(spec, cnt, exc_types, info)
+    used_text = '\n'.join(extracted.values()) + '\n' + '\n'.join(c for k, c in chunks if k == 'text')
+    used_tokens = set(re.findall(r'\bf[A-Za-z]\w*', used_text))
+    for ci, (kind, c) in enumerate(chunks):
+        if kind == 'extract':
+            out.append(extracted[ci])
             continue
         for ln in c.split('\n'):
             s = ln.strip()
@@ -823,7 +896,7 @@ def process(template_path):
                 if 'self' in kv:
                     opts['self'] = None if kv['self'] == 'none' else kv['self']
                 if 'only' in kv:
-                    opts['only'] = kv['only'].split(',')
+                    opts['only'] = sorted(used_tokens) if kv['only'] == 'auto' else kv['only'].split(',')
                 if 'enums' in kv:
                     opts['enums'] = {e: 'int' for e in kv['enums'].split(',')}
                 if 'structs' in kv:
@@ -836,6 +909,22 @@ def process(template_path):
                     opts['override'] = ov
                 st, names = gen_struct(args[0], args[1], opts, cnt)
                 out.append(st)
+            elif key == 'opaque':
+                for a_ in args:
+                    out.append('typedef struct %s %s;' % (a_, a_))
+            elif key == 'rebind':
+                # R13: a named size constant is rebound by -D; record original value, check later
+                src_r = read_src(args[0])
+                mm = re.search(r'\b%s\s*=\s*([^,}\n;]+)' % re.escape(args[1]), src_r)
+                if not mm:
+                    raise ExtractionError('rebind: %s not found in %s' % (args[1], args[0]))
+                expr = mm.group(1).strip()
+                if not re.fullmatch(r'[\d\s\*\+x0-9a-fA-F\(\)]+', expr):
+                    raise ExtractionError('rebind: cannot evaluate %r' % expr)
+                val = eval(expr)
+                info.setdefault('rebinds', []).append({'name': args[1], 'original': val, 'expr': expr})
+                info['notes'].append('R13: size constant %s (=%d in /repo) is rebound by -D for this unit; the code is assumed parametric in it' % (args[1], val))
+                cnt.hit('R13_rebind')
             elif key == 'enum':
                 kv = parse_kv(args[3:])
                 out.append(gen_enum(args[0], args[1], args[2], cnt, scope=kv.get('scope')))
@@ -845,6 +934,12 @@ def process(template_path):
         raise ExtractionError('template without //@ unit')
     if not info['entry']:
         raise ExtractionError('template without //@ entry')
+    for rb in info.get('rebinds', []):
+        for fn_text in info.get('_bodies', []):
+            if re.search(r'\b%d\b' % rb['original'], fn_text) or rb['expr'].replace(' ', '') in fn_text.replace(' ', ''):
+                raise ExtractionError('R13: literal spelling of %s (%d) occurs in an extracted body' % (rb['name'], rb['original']))
+    info.pop('_bodies', None)
+    info.pop('_sigs', None)
     info['rules_fired'] = dict(cnt)
     info['exception_types'] = sorted(exc_types)
     return '\n'.join(out), info
